@@ -280,10 +280,10 @@ def run(ctx):
                 "ending, probe, shape, trace) in which at least one probe really ran on an object that had been mutated earlier in the "
                 "same history and came back from the pool (object identity logged at Acquire); pool misses are counted in "
                 "probes - probes_on_recycled_object." %
-                ("seeded 1/19 sample" if q else "all of them", "plain build" if q else "16 goroutines, -race build"),
+                ("seeded 1/11 sample, one reuse mode each" if q else "all of them, on all three reuse modes", "plain build" if q else "16 goroutines, -race build"),
     })
     ctx.assumptions += [
-        "the observable state is what harness/drivers/c09/dump.go reads through exported getters/fields (102 components); Date, addresses, "
+        "the observable state is what harness/drivers/c09/dump.go reads through exported getters/fields (100 components); Date, addresses, "
         "timestamps, pointer identity, buffer capacities and unexported scratch space are excluded",
         "the fresh reference is the dump of a newly allocated context serving the same probe on a brand-new engine (checked reproducible at start-up)",
         "a mutator is exercised with one fixed argument set per table entry (variants for special header names)",
